@@ -110,6 +110,11 @@ func seqRunes(kind string, n int) []rune {
 		switch kind {
 		case "multi":
 			r[i] = multi[i%len(multi)]
+		case "special":
+			// code points that decoders treat specially: the replacement character (what a decoding error looks like), the
+			// byte-order mark, the last code point, a combining mark, NUL-adjacent and surrogate-adjacent ones
+			sp := []rune{'x', 0xFFFD, 'y', 0x3042, 0xFFFD, 0xFEFF, 0x10FFFF, 0x0301, 0x01, 0xD7FF, 0xE000, 0x7F, 0x80}
+			r[i] = sp[i%len(sp)]
 		case "lowbyte":
 			// code points whose low byte (U+30xx) resp. low 16 bits (U+200xx) are the ASCII letters used by kind ascii
 			if i%2 == 0 {
@@ -300,7 +305,7 @@ func expectRepr(t tcase, pos []int) string {
 	for _, p := range pos {
 		sb.WriteRune(rs[p])
 	}
-	return fmt.Sprintf("%q", sb.String())
+	return object.NewPanStr(sb.String()).Inspect() // printed the way the interpreter prints a str
 }
 
 func outOfRange(t tcase) bool {
@@ -399,7 +404,7 @@ func generate(maxN int, emit func(tcase)) {
 	ext := []int64{math.MinInt64, math.MinInt64 + 1, math.MaxInt64 - 1, math.MaxInt64}
 	// "lowbyte" then "ascii2" (= ascii again): one-letter results of different strings that agree in their low
 	// byte / low 16 bits are produced in both orders within one process
-	for _, kind := range []string{"arr", "ascii", "multi", "lowbyte", "ascii2"} {
+	for _, kind := range []string{"arr", "ascii", "multi", "special", "lowbyte", "ascii2"} {
 		for n := 0; n <= maxN; n++ {
 			var bounds []*int64
 			bounds = append(bounds, nil)
